@@ -1,0 +1,19 @@
+//go:build verif
+
+package shrinker
+
+// VerifWait waits until no shrinker thread is running.
+func (shrinker *ShrinkerSt) VerifWait() {
+	shrinker.mu.Lock()
+	for shrinker.nthread > 0 {
+		shrinker.condShut.Wait()
+	}
+	shrinker.mu.Unlock()
+}
+
+func (shrinker *ShrinkerSt) VerifNThread() uint32 {
+	shrinker.mu.Lock()
+	n := shrinker.nthread
+	shrinker.mu.Unlock()
+	return n
+}
